@@ -137,6 +137,35 @@ class MetricTranslator:
                         if meth == "update" and len(later.value.args) == 1 and isinstance(later.value.args[0], ast.Dict) \
                                 and not later.value.keywords:
                             adds = list(zip(later.value.args[0].keys, later.value.args[0].values))
+                        elif meth == "update" and len(later.value.args) == 1 and isinstance(later.value.args[0], ast.DictComp) \
+                                and not later.value.keywords:
+                            # `DISTANCES.update({alias: DISTANCES[name] for alias, name in ALIASES.items()})` with ALIASES a
+                            # module-level literal {str: str}: every alias gets the function registered under its name - also
+                            # when the alias IS a registered name (then that entry is replaced)
+                            dc = later.value.args[0]
+                            g = dc.generators[0] if len(dc.generators) == 1 else None
+                            tab = None
+                            if g is not None and not g.ifs and isinstance(g.target, ast.Tuple) and len(g.target.elts) == 2 \
+                                    and all(isinstance(x, ast.Name) for x in g.target.elts) and isinstance(g.iter, ast.Call) \
+                                    and isinstance(g.iter.func, ast.Attribute) and g.iter.func.attr == "items" and isinstance(g.iter.func.value, ast.Name):
+                                a_n, n_n = g.target.elts[0].id, g.target.elts[1].id
+                                if unparse(dc.key) == a_n and unparse(dc.value) == f"DISTANCES[{n_n}]":
+                                    tb = [x for x in self.mi.tree.body if isinstance(x, ast.Assign) and any(
+                                        isinstance(t, ast.Name) and t.id == g.iter.func.value.id for t in x.targets)]
+                                    if len(tb) == 1 and isinstance(tb[0].value, ast.Dict) and all(
+                                            isinstance(k, ast.Constant) and isinstance(k.value, str) and isinstance(v, ast.Constant)
+                                            and isinstance(v.value, str) for k, v in zip(tb[0].value.keys, tb[0].value.values)):
+                                        tab = [(k.value, v.value) for k, v in zip(tb[0].value.keys, tb[0].value.values)]
+                            if tab is None:
+                                raise AnalysisError("DISTANCES.update(<comprehension>) at module level: the registry cannot be read statically")
+                            for alias, nm in tab:
+                                if nm not in out:
+                                    raise AnalysisError(f"DISTANCES alias {alias!r} names {nm!r}, which is not registered at that point")
+                            snapshot = dict(out)
+                            adds = []
+                            for alias, nm in tab:
+                                out[alias] = snapshot[nm]
+                            self.registry_aliases = getattr(self, "registry_aliases", set()) | {a for a, _ in tab if a not in snapshot}
                         elif meth == "update" and not later.value.args:
                             adds = [(ast.Constant(k.arg), k.value) for k in later.value.keywords]
                         else:
@@ -158,6 +187,11 @@ class MetricTranslator:
                         if not (isinstance(k, ast.Constant) and isinstance(k.value, str)):
                             raise AnalysisError("an identifier added to DISTANCES is not a string literal")
                         out[k.value] = unparse(v)
+                # second names for registered metrics (an extension of the documented table: the models' whitelist does not
+                # accept them) are not identifiers of their own; an "alias" that IS a documented identifier replaced that entry
+                # and stays in the table with what it now points to
+                for a in getattr(self, "registry_aliases", ()):
+                    out.pop(a, None)
                 return out
         raise AnalysisError("DISTANCES registry not found")
 
@@ -533,6 +567,26 @@ class MetricTranslator:
         if isinstance(node, ast.Name):
             if node.id in env:
                 return env[node.id]
+            # a module-level numeric constant of the metrics module, bound exactly once (`_HALF = 0.5`, `_TWO = 2.0`) and never
+            # stored to: the number it names (`float(2)`, `1 / 2` included)
+            binds = [st for st in self.mi.tree.body if isinstance(st, ast.Assign) and any(
+                isinstance(t, ast.Name) and t.id == node.id for t in st.targets)]
+            rebinds = [n for n in ast.walk(self.mi.tree) if isinstance(n, ast.Name) and n.id == node.id and isinstance(n.ctx, (ast.Store, ast.Del))]
+            globals_ = [n for n in ast.walk(self.mi.tree) if isinstance(n, ast.Global) and node.id in n.names]
+            if len(binds) == 1 and len(rebinds) == 1 and not globals_:
+                v = binds[0].value
+                if isinstance(v, ast.Call) and isinstance(v.func, ast.Name) and v.func.id == "float" and len(v.args) == 1 and not v.keywords:
+                    v = v.args[0]
+                if isinstance(v, ast.Attribute) and unparse(v).startswith("c."):
+                    return self._expr(v, env, ops, obl, fi, depth)  # a library constant under a local name
+                try:
+                    val = eval(compile(ast.Expression(body=v), "<const>", "eval"), {"__builtins__": {}}, {}) \
+                        if all(isinstance(n, (ast.Constant, ast.BinOp, ast.UnaryOp, ast.operator, ast.unaryop, ast.Expression, ast.Load))
+                               for n in ast.walk(v)) else None
+                except Exception:
+                    val = None
+                if isinstance(val, (int, float)) and not isinstance(val, bool):
+                    return ("scalar", sp.nsimplify(val, rational=True))
             raise AnalysisError(f"{fi.name}: unknown name {node.id}")
         if isinstance(node, ast.Attribute):
             d = unparse(node)
@@ -544,6 +598,10 @@ class MetricTranslator:
                     return ("scalar", sp.oo)  # only meaningful as a clip bound: min(v, FLOAT_MAX) is v for finite v
                 if name in self.consts and isinstance(self.consts[name], (int, float)):
                     return ("scalar", sp.nsimplify(self.consts[name], rational=True))
+            flt = {"np.finfo(np.float64).eps": 2.0 ** -52, "np.finfo(float).eps": 2.0 ** -52, "sys.float_info.epsilon": 2.0 ** -52,
+                   "np.finfo(np.float64).tiny": 2.0 ** -1022, "sys.float_info.min": 2.0 ** -1022, "np.finfo(np.float32).eps": 2.0 ** -23}
+            if d.replace("numpy.", "np.") in flt:
+                return ("scalar", sp.nsimplify(flt[d.replace("numpy.", "np.")], rational=True))  # a machine constant: that number
             raise AnalysisError(f"{fi.name}: attribute {d} outside the whitelist")
         if isinstance(node, ast.Subscript):
             # x[i] inside an element loop, x.shape[0]
